@@ -157,7 +157,7 @@ func runCorpus(c *vkit.Collector, g *gen) {
 	cell := s2.CellFromCellID(s2.CellIDFromFace(1))
 	q := raw(hx("0x1.279a74590331dp-01"), hx("0x1.279a74590331cp-01"), hx("-0x1.279a74590331dp-01"))
 	if cell.ContainsPoint(q) {
-		checkContained(c, "Cell", boundsFor(cell), q, map[string]interface{}{"cell": "face 1", "level": 0})
+		checkContained(c, "Cell", boundsFor(cell), q, map[string]interface{}{"cell": "face 1", "level": 0, "near_vertex": nearAnyVertex(q, cell)})
 	}
 }
 
